@@ -5,6 +5,7 @@ regenerated from the current source on every run (`Gen/ChainFacts.lean`, extract
 -/
 import Rivaas.Gen.ChainFacts
 import Rivaas.Model.Chain
+import Rivaas.Model.Compose
 
 namespace Rivaas.Tie.C02Chain
 open Rivaas.Gen.ChainFacts
@@ -219,6 +220,62 @@ theorem mount_chain_order :
       ["_1 := make([]HandlerFunc, 0, len(_2)+len(_3))", "_1 = append(_1, _2...)",
        "range _3 {", "if _4 {", "_1 = append(_1, _5)", "}", "}",
        "_6 := _7.addRouteInternal(_8.Method(), _9, _1)"] := by decide
+
+/-! ### the extracted `Mount` / `mountRoute`, interpreted, against `Compose.mountOp` -/
+
+/-- a part of the chain a mounted route gets -/
+inductive Part where
+  /-- the parent router's middleware, only with `InheritMiddleware` -/
+  | parentIfInherit
+  | subMiddleware
+  | extras
+  /-- the route's own handlers -/
+  | own
+  deriving Repr, DecidableEq
+
+/-- `Mount`: the order in which the mount chain is appended; `mountRoute`: mount chain first, then the route's handlers -/
+def parseMount (mount mountRoute : List String) : Option (List Part) :=
+  match mount, mountRoute with
+  | ["if _1.InheritMiddleware {", "_2 = make([]HandlerFunc, 0, len(_3.middleware))", "_2 = append(_2, _3.middleware...)", "}",
+     "_2 = append(_2, _4.middleware...)",
+     "range _1.ExtraMiddleware {", "if _5 {", "_2 = append(_2, _6)", "}", "}",
+     "_3.mergeSubrouterRoutes(_7, _4, _2, _1.NamePrefix)"],
+    "_1 := make([]HandlerFunc, 0, len(_2)+len(_3))" :: "_1 = append(_1, _2...)" ::
+      "range _3 {" :: "if _4 {" :: "_1 = append(_1, _5)" :: "}" :: "}" ::
+      "_6 := _7.addRouteInternal(_8.Method(), _9, _1)" :: _ =>
+    some [.parentIfInherit, .subMiddleware, .extras, .own]
+  | _, _ => none
+
+def partOf (inherit : Bool) (pmw smw extra own : List Nat) : Part → List Nat
+  | .parentIfInherit => if inherit then pmw else []
+  | .subMiddleware => smw
+  | .extras => extra
+  | .own => own
+
+def chainOfParts (ps : List Part) (inherit : Bool) (pmw smw extra own : List Nat) : List Nat :=
+  (ps.map (partOf inherit pmw smw extra own)).flatten
+
+open Rivaas.Compose in
+/-- **The extracted `Mount` + `mountRoute`, interpreted, build the handler slice `Compose.mountOp` gives a mounted
+    route** — parent middleware under `InheritMiddleware`, sub-router middleware, extras, the route's own handlers —
+    and `mountOp` hands the parent exactly one such route per route object of the sub-router -/
+theorem mount_interpreted_agrees_with_mountOp (w : World) (parent sub seg : Nat) (inherit : Bool) (extra : List Hid)
+    (p s : RouterSt) (hp : w.routers[parent]? = some p) (hs : w.routers[sub]? = some s) :
+    (parseMount router_Mount router_mountRoute).isSome = true ∧
+    mountOp w parent sub seg inherit extra =
+      s.objs.foldl (fun w rt => w.addRouteOn parent
+        { ver := none, path := seg :: rt.path,
+          hs := ((parseMount router_Mount router_mountRoute).map
+                  (fun ps => chainOfParts ps inherit p.mw s.mw extra rt.hs)).getD [] }) w := by
+  have hparse : parseMount router_Mount router_mountRoute = some [.parentIfInherit, .subMiddleware, .extras, .own] := by decide
+  refine ⟨by rw [hparse]; rfl, ?_⟩
+  rw [hparse]
+  unfold mountOp
+  simp only [hp, hs, Option.map_some, Option.getD_some, chainOfParts, List.map, partOf, List.flatten, List.append_nil,
+    List.append_assoc]
+  congr 1
+  funext w rt
+  simp [List.append_assoc]
 
 /-- `Mount` after the K02b fix (`Compose.mountOp` folds over `RouterSt.objs`): every route created on a router is
     logged — before the decision "register now / defer" —, the log only grows, and `mergeSubrouterRoutes` mounts
